@@ -628,15 +628,9 @@ fn c12_run(cfg: &Config) -> PropRun {
             visit,
         )
     };
-    let mut report = if cfg.tier == Tier::Quick {
-        let mut r = run_chains(d - 1, true);
-        r.absorb(run_chains(d, false));
-        r
-    } else {
-        let mut r = run_chains(d - 1, true);
-        r.absorb(run_chains(d, false));
-        r
-    };
+    // the bulk (all chains) runs last, after the sequence, zoo and rare-context passes: a time cap
+    // then cuts the tail of the largest enumeration and never a targeted pass
+    let mut report = run_chains(1, true);
     // sequences of two programs: the second starts from the configuration the first leaves
     let dd = if cfg.tier == Tier::Quick { 1 } else { 2 };
     let mut seq = programs(dd, false);
@@ -766,6 +760,8 @@ fn c12_run(cfg: &Config) -> PropRun {
         },
     );
     report.absorb(rare_report);
+    report.absorb(run_chains(d - 1, true));
+    report.absorb(run_chains(d, false));
     report.distinct_nontrivial = ex.distinct_nontrivial.load(std::sync::atomic::Ordering::Relaxed);
     PropRun {
         report,
